@@ -9,7 +9,10 @@ FILES=$(for f in "$@"; do echo "  - $f"; done)
 /venv/bin/python - "$B" "$FILES" <<'PY'
 import sys
 b, files = sys.argv[1:3]
+import os
 t = open('/verif/tools/benign_prompt.txt').read().replace('@P@', b).replace('@FILES@', files)
+if os.environ.get('BENIGN_EXTRA'):
+    t += '\n\n' + os.environ['BENIGN_EXTRA'] + '\n'
 open('/tmp/benign/%s/BENIGN_TASK.md' % b, 'w').write(t)
 PY
 echo $D
